@@ -607,5 +607,8 @@ def run(tier='quick'):
                         'list whose next-pointer is the sentinel 0 (not by its id)', floor=1)
     from . import extra
     extra.new_tail_linked(prog, cg, eff, chk, W13)
+    W14 = chk.rule('W14', 'every multi-statement co-update relies on the transaction guard: it begins, commits (flag set only after COMMIT succeeded) and rolls back exactly when not committed, so a failed operation leaves neither half a co-update nor an open transaction whose later work is lost on close', floor=4)
+    from . import c14 as _c14g
+    _c14g._guard_shape(prog, eff, chk, W14)
     return chk.finish('statement sites of the 1.x crate operations with resolved binds (roles), field model of '
                       'the track path per schema range, parsed triggers of every 2.x DDL, value flow of add_track')
